@@ -216,16 +216,24 @@ def compare(s, r):
             raise vlib.Undecided("csvimport harness could not run scenario %s: %s" % (s["id"], r["fail"]))
         return "fail:" + r["fail"][:50]
     exp = s["exp"]
-    if r["outcomes"] == exp["outcomes"] and r["table"] == exp["table"]:
+    # what is compared: how many records were reported stored and how many refused, and the table (which rows, in which order).
+    # The order in which "stored" and "refused" reports of DIFFERENT records arrive is not part of the property: the importer
+    # reports them on two channels, and an implementation that converts records ahead of storing them reports a later refusal
+    # before an earlier success (found with a behaviour-preserving change; the comparison used to demand the record order)
+    if same_reports(r["outcomes"], exp["outcomes"]) and r["table"] == exp["table"]:
         return None
     nv = s.get("naive")
-    if s["taint"] and nv and r["outcomes"] == nv["outcomes"] and r["table"] == nv["table"]:
+    if s["taint"] and nv and same_reports(r["outcomes"], nv["outcomes"]) and r["table"] == nv["table"]:
         return FINDING
-    if r["outcomes"] != exp["outcomes"]:
+    if not same_reports(r["outcomes"], exp["outcomes"]):
         if len(r["outcomes"]) != len(exp["outcomes"]):
             return "outcome-count"
         return "outcomes"
     return "table"
+
+
+def same_reports(a, b):
+    return sorted(a) == sorted(b)
 
 
 def show(s):
@@ -251,7 +259,7 @@ def report(ctx, bad):
                            observed=dict(outcomes=r["outcomes"], table=r["table"], errors=r.get("errors"),
                                          coltypes=r.get("coltypes"), fail=r.get("fail", "")),
                            how="table t(c1..cn) of the schema's types is created in a fresh database; csv_text is fed to "
-                               "doBatchInsert with -src-cols/-dest-cols as given; outcomes = order of ok/err events; "
+                               "doBatchInsert with -src-cols/-dest-cols as given; outcomes = the ok/err events received (compared as counts); "
                                "table = SELECT * FROM t; expected = what CsvImport.tla prescribes (printed by TLC)")
             vlib.report_violation(ctx, payload, signature=sig, finding_ids=[FINDING] if sig == FINDING else [])
     return {k: len(v) for k, v in groups.items()}
@@ -388,7 +396,7 @@ def run(ctx):
                 if not any(r2.get("fail", "").startswith("panic: the import killed the process") for r2 in again[s["id"]]):
                     raise vlib.Undecided("scenario %d killed the import process once but not when repeated" % s["id"])
                 continue
-            same = [r2 for r2 in again[s["id"]] if r2["outcomes"] == r["outcomes"] and r2["table"] == r["table"]
+            same = [r2 for r2 in again[s["id"]] if same_reports(r2["outcomes"], r["outcomes"]) and r2["table"] == r["table"]
                     and r2.get("fail", "") == r.get("fail", "") and set(r["m"]) <= set(r2["m"])]
             if not same:
                 raise vlib.Undecided("scenario %d failed differently when repeated (%s)" % (s["id"], sig))
